@@ -13,6 +13,80 @@ use std::cell::{Cell, RefCell};
 use std::panic::{catch_unwind, AssertUnwindSafe};
 use std::rc::Rc;
 
+/// Watchdog bookkeeping: which run every worker thread is executing and since when, so that a
+/// run that never returns (a loop inside the crate that makes no derivative call, which no
+/// budget of the stub can end) is reported instead of hanging the check. Wall-clock time is read
+/// only here and decides nothing about any run that does terminate.
+pub mod watch {
+    use super::Budget;
+    use crate::spec::RunSpec;
+    use std::sync::atomic::{AtomicBool, AtomicU64, AtomicUsize, Ordering};
+    use std::sync::Mutex;
+    use std::time::Instant;
+
+    pub struct Slot {
+        /// milliseconds since process start at which the current top-level run began; 0 = idle
+        pub started_ms: AtomicU64,
+        pub fired: AtomicBool,
+        pub spec: Mutex<Option<(RunSpec, Vec<Budget>)>>,
+    }
+
+    pub const SLOTS: usize = 256;
+    static NEXT: AtomicUsize = AtomicUsize::new(0);
+    static T0: Mutex<Option<Instant>> = Mutex::new(None);
+
+    pub fn slots() -> &'static Vec<Slot> {
+        static REG: std::sync::OnceLock<Vec<Slot>> = std::sync::OnceLock::new();
+        REG.get_or_init(|| {
+            (0..SLOTS)
+                .map(|_| Slot { started_ms: AtomicU64::new(0), fired: AtomicBool::new(false), spec: Mutex::new(None) })
+                .collect()
+        })
+    }
+
+    pub fn now_ms() -> u64 {
+        let mut g = T0.lock().unwrap();
+        let t0 = *g.get_or_insert_with(Instant::now);
+        t0.elapsed().as_millis() as u64 + 1
+    }
+
+    thread_local! {
+        static MY_SLOT: usize = NEXT.fetch_add(1, Ordering::Relaxed) % SLOTS;
+        pub static DEPTH: std::cell::Cell<u32> = const { std::cell::Cell::new(0) };
+    }
+
+    pub fn enter(spec: &RunSpec, budgets: &[Budget]) {
+        let d = DEPTH.with(|d| {
+            let v = d.get();
+            d.set(v + 1);
+            v
+        });
+        if d == 0 {
+            MY_SLOT.with(|i| {
+                let s = &slots()[*i];
+                *s.spec.lock().unwrap() = Some((spec.clone(), budgets.to_vec()));
+                s.fired.store(false, Ordering::Relaxed);
+                s.started_ms.store(now_ms(), Ordering::Release);
+            });
+        }
+    }
+
+    pub fn leave() {
+        let d = DEPTH.with(|d| {
+            let v = d.get().saturating_sub(1);
+            d.set(v);
+            v
+        });
+        if d == 0 {
+            MY_SLOT.with(|i| slots()[*i].started_ms.store(0, Ordering::Release));
+        }
+    }
+
+    pub fn note_fired() {
+        MY_SLOT.with(|i| slots()[*i].fired.store(true, Ordering::Relaxed));
+    }
+}
+
 /// Budgets of one instance. They are part of what decides a run, so they travel with the spec.
 #[derive(Clone, Copy, Debug, PartialEq, Eq)]
 pub struct Budget {
@@ -263,9 +337,12 @@ pub struct InstSummary {
     pub extra_none: u64,
     pub extra_some_after_done: u64,
     pub surfaced_not_first: bool,
+    pub not_in_source_chain: bool,
     pub builder_calls: u64,
     pub builder_rejected: Option<(u8, ErrClass)>,
     pub hook_reads: u64,
+    pub solver_reads: u64,
+    pub builder_inverted: bool,
     /// cumulative derivative-call count after each poll (only when requested)
     pub poll_calls: Vec<u32>,
     /// 0 = Ok item, 1 = None, 2 = Err
@@ -313,6 +390,7 @@ impl StubHooks for Hooks {
             let fail = if !abort && s.plan.fails(call) {
                 let tag = tag_of(s.inst, call);
                 s.fired.push(tag);
+                watch::note_fired();
                 if s.first_fired_poll.is_none() {
                     s.first_fired_poll = Some(s.cur_poll);
                 }
@@ -376,6 +454,7 @@ struct Oracle {
     extra_some_after_done: u64,
     ok_after_fire: u64,
     surfaced_not_first: bool,
+    not_in_source_chain: bool,
     poll_calls: Vec<u32>,
     poll_kinds: Vec<u8>,
 }
@@ -428,22 +507,27 @@ fn judge_err(rt: &InstRt, ctx: &Ctx, e: &bacon_sci::ivp::IVPError, o: &mut Oracl
     let reachable = fired.iter().any(|t| found.carries(rt.payload, *t));
     match direct {
         Some(i) => {
-            if i != 0 {
-                o.surfaced_not_first = true;
-            }
             o.ended_by = Some(EndedBy::UserErr);
-            if !reachable {
-                // held by the variant, but no longer part of the error's source() chain: a
-                // caller that treats the item as a `dyn Error` cannot get to its error any more
+            if i != 0 {
+                // the derivative had already failed at an earlier call: that error ends the
+                // iteration; surfacing a later one means the first was passed over and the
+                // user's function was called again after it had failed
+                o.surfaced_not_first = true;
                 ctx.violate(
-                    "payload-not-in-source-chain",
+                    "wrong-error",
                     rt.idx,
                     format!(
-                        "the Err item holds the {} error returned by the derivative at call {}, but walking source() from the item no longer reaches it",
-                        rt.payload.name(),
-                        crate::stub::tag_call(fired[i])
+                        "the Err item carries the error the derivative returned at call {}, but the derivative had already returned Err at call {} ({} failing calls were made before anything was surfaced)",
+                        crate::stub::tag_call(fired[i]),
+                        crate::stub::tag_call(fired[0]),
+                        fired.len()
                     ),
                 );
+            }
+            if !reachable {
+                // held by the variant but not part of the item's source() chain: recorded only.
+                // How IVPError implements Error::source is not something C06 speaks about.
+                o.not_in_source_chain = true;
             }
         }
         None => {
@@ -539,6 +623,15 @@ fn handle_panic(rt: &InstRt, ctx: &Ctx, o: &mut Oracle, p: Box<dyn std::any::Any
                 format!(
                     "the derivative returned Err at call {} but the solver kept calling it until the call budget ({}) was exhausted without yielding an Err",
                     crate::stub::tag_call(rt.stub.borrow().fired[0]),
+                    rt.stub.borrow().max_calls
+                ),
+            );
+        } else if o.err_seen {
+            ctx.violate(
+                "item-after-err",
+                rt.idx,
+                format!(
+                    "after the iterator had yielded its Err, a further next() kept calling the derivative until the call budget ({}) was exhausted instead of returning None",
                     rt.stub.borrow().max_calls
                 ),
             );
@@ -745,6 +838,44 @@ fn nth_once(rt: &Rc<InstRt>, ctx: &Rc<Ctx>) {
     if was_ended {
         o.polls_after_end += 1;
     }
+    update_driving(rt, ctx, &mut o);
+    drop(o);
+    ctx.log.borrow_mut().push(Event::Poll { inst: rt.idx, poll: poll_no, ret });
+}
+
+/// After the end: `it.nth(m)` instead of `it.next()`. After an `Err` it must return `None`.
+fn nth_after_end(rt: &Rc<InstRt>, ctx: &Rc<Ctx>, m: usize) {
+    let mut guard = match rt.iter.try_borrow_mut() {
+        Ok(g) => g,
+        Err(_) => return,
+    };
+    let it = match guard.as_mut() {
+        Some(it) => it,
+        None => return,
+    };
+    let poll_no = {
+        let mut o = rt.o.borrow_mut();
+        o.polls += 1;
+        o.polls
+    };
+    rt.stub.borrow_mut().cur_poll = poll_no;
+    let r = catch_unwind(AssertUnwindSafe(|| it.nth_m(m)));
+    drop(guard);
+    let mut o = rt.o.borrow_mut();
+    let ret = match r {
+        Ok(Some(Item::Ok { t, .. })) => {
+            judge_ok(rt, ctx, &mut o);
+            PollRet::Ok(t)
+        }
+        Ok(Some(Item::Err(e))) => judge_err(rt, ctx, &e, &mut o),
+        Ok(None) => {
+            o.extra_none += 1;
+            judge_none(rt, ctx, &mut o);
+            PollRet::None
+        }
+        Err(p) => handle_panic(rt, ctx, &mut o, p),
+    };
+    o.polls_after_end += 1;
     update_driving(rt, ctx, &mut o);
     drop(o);
     ctx.log.borrow_mut().push(Event::Poll { inst: rt.idx, poll: poll_no, ret });
@@ -1036,27 +1167,35 @@ fn build_instance(
             Outcome::Ok => {
                 model.commit(op);
                 if let BOp::Solve = op {
+                    // B7: what reached the solver has minimum <= maximum
+                    if let Some((lo, hi)) = iter_out.as_ref().and_then(|it| it.dt_bounds()) {
+                        summary.solver_reads += 1;
+                        ctx.log.borrow_mut().push(Event::Bounds { inst: idx, min: Some(lo), max: Some(hi) });
+                        if !(lo <= hi) {
+                            ctx.violate(
+                                "bounds-inverted",
+                                idx,
+                                format!(
+                                    "{}::solve built a solver whose minimum step {:?} is above its maximum step {:?}",
+                                    spec.kind.name(),
+                                    lo,
+                                    hi
+                                ),
+                            );
+                            return None;
+                        }
+                    }
                     return iter_out;
                 }
-                // B7: after every accepted call, minimum <= maximum
+                // the builder's own fields after every accepted call: recorded, not judged (a
+                // builder may reconcile its bounds as late as solve())
                 if let Some(b) = builder.as_ref() {
                     if let Some((min, max)) = b.dt_bounds() {
                         summary.hook_reads += 1;
                         ctx.log.borrow_mut().push(Event::Bounds { inst: idx, min, max });
                         if let (Some(lo), Some(hi)) = (min, max) {
                             if !(lo <= hi) {
-                                ctx.violate(
-                                    "bounds-inverted",
-                                    idx,
-                                    format!(
-                                        "after {}::{} the builder holds minimum step {:?} > maximum step {:?}",
-                                        spec.kind.name(),
-                                        op.tag(),
-                                        lo,
-                                        hi
-                                    ),
-                                );
-                                return None;
+                                summary.builder_inverted = true;
                             }
                         }
                     }
@@ -1087,9 +1226,12 @@ fn empty_summary() -> InstSummary {
         extra_none: 0,
         extra_some_after_done: 0,
         surfaced_not_first: false,
+        not_in_source_chain: false,
         builder_calls: 0,
         builder_rejected: None,
         hook_reads: 0,
+        solver_reads: 0,
+        builder_inverted: false,
         poll_calls: Vec::new(),
         poll_kinds: Vec::new(),
         items: Vec::new(),
@@ -1307,6 +1449,17 @@ fn drive_once(rt: &Rc<InstRt>, ctx: &Rc<Ctx>, drive: Drive) {
                 poll_once(rt, ctx)
             }
         }
+        Drive::PollThenNth(m) => {
+            let ended = {
+                let o = rt.o.borrow();
+                o.err_seen || o.done_seen
+            };
+            if ended {
+                nth_after_end(rt, ctx, m as usize)
+            } else {
+                poll_once(rt, ctx)
+            }
+        }
         Drive::PollThenCount | Drive::PollThenLast => {
             let ended = {
                 let o = rt.o.borrow();
@@ -1324,13 +1477,25 @@ fn drive_once(rt: &Rc<InstRt>, ctx: &Rc<Ctx>, drive: Drive) {
 
 /// Execute one run. Pure function of `spec` (and of the code under test).
 pub fn execute(spec: &RunSpec, budgets: &[Budget], opts: &ExecOpts) -> RunResult {
+    watch::enter(spec, budgets);
+    let r = execute_inner(spec, budgets, opts);
+    watch::leave();
+    r
+}
+
+fn execute_inner(spec: &RunSpec, budgets: &[Budget], opts: &ExecOpts) -> RunResult {
     let n = spec.instances.len();
 
     // adapter drives: a next()-driven shadow run of the same instance is the reference
     let mut shadows: Vec<Option<Vec<ItemRec>>> = vec![None; n];
     let mut shadow_violation: Option<Violation> = None;
     for i in 0..n {
-        if matches!(spec.instances[i].drive, Drive::NthSkip(_) | Drive::Count | Drive::Last) {
+        // (the by-value finishers count()/last()/collect_vec() cannot be bounded from outside, so
+        // they are only run on an instance whose next()-driven shadow is clean)
+        if matches!(
+            spec.instances[i].drive,
+            Drive::NthSkip(_) | Drive::Count | Drive::Last | Drive::PollThenCollect | Drive::PollThenCount | Drive::PollThenLast
+        ) {
             let s = RunSpec {
                 instances: vec![InstSpec { nested_every: 0, drive: Drive::Poll, ..spec.instances[i].clone() }],
                 sched_seed: 0,
@@ -1491,6 +1656,7 @@ pub fn execute(spec: &RunSpec, budgets: &[Budget], opts: &ExecOpts) -> RunResult
         sm.extra_none = o.extra_none;
         sm.extra_some_after_done = o.extra_some_after_done;
         sm.surfaced_not_first = o.surfaced_not_first;
+        sm.not_in_source_chain = o.not_in_source_chain;
         sm.poll_calls = o.poll_calls.clone();
         sm.poll_kinds = o.poll_kinds.clone();
         sm.items = o.items.clone();
@@ -1538,12 +1704,15 @@ pub fn execute(spec: &RunSpec, budgets: &[Budget], opts: &ExecOpts) -> RunResult
 
     // ... and two instances with identical specifications must have identical histories
     if violation.is_none() && n > 1 && opts.check_isolation {
+        // identical means bit for bit (-0.0 and 0.0 are different arguments), which is how the
+        // histories are compared too
+        let twin_keys: Vec<String> = spec.instances.iter().map(|i| i.to_json().to_string_compact()).collect();
         let plain = |i: usize| {
             spec.instances[i].nested_every == 0 && (i == 0 || spec.instances[i - 1].nested_every == 0 || spec.phased)
         };
         'outer: for i in 0..n {
             for j in (i + 1)..n {
-                if plain(i) && plain(j) && spec.instances[i] == spec.instances[j] && summaries[i].fp != summaries[j].fp {
+                if plain(i) && plain(j) && twin_keys[i] == twin_keys[j] && summaries[i].fp != summaries[j].fp {
                     let (a, b) = (&summaries[i], &summaries[j]);
                     violation = Some(Violation {
                         class: "cross-talk",
